@@ -142,7 +142,329 @@ def replay(model, obligation):
 def run(chk):
     p2_link_classification(chk)
     p3_table_children(chk)
+    p4_parselines_run(chk)
+    p5_parselines_analyze(chk)
     bounded(chk)
     chk.assumptions += [
-        "section nesting (core.create), list grouping (ParseLines), table recognition and apostrophe resolution are covered by the bounded round trip only, not by discharged contracts",
+        "section nesting (core.create), table recognition and apostrophe resolution are covered by the bounded round trip only, not by discharged contracts",
+        "ParseLines: run() is proved to overwrite exactly the collected tokens (frame) and analyze() to insert each created token once; collect_items / append_line / splitdl are under ASSUMED contracts (bounded round trip only); precondition of run(): item / colon tokens stand at index 0 or right behind a newline / break token (scanner contract); termination of both loops is not proved",
     ]
+
+
+# ----------------------------------------------------------------------------- P4: ParseLines.run replaces exactly the tokens it collected
+# Derived from the property ("nothing visible is dropped, duplicated, re-ordered"): run() gathers the tokens of
+# consecutive list lines into `lines` (the marker token through get_line_prefix, the rest as children slices) and
+# later overwrites a slice of self.tokens by the analysed lines.  Frame contract of every such overwrite:
+#   the overwritten index range == the set of collected token indices, each collected exactly once.
+CORE = "mwlib/parser/refine/core.py"
+
+
+def _token_types():
+    from mwlib.parser.refine import core
+    T = core.Token
+    out, nxt = {}, 1000
+    for k in sorted(dir(T)):
+        if k.startswith("t_"):
+            v = getattr(T, k)
+            if isinstance(v, int):
+                out[k] = v
+            else:
+                out[k] = nxt
+                nxt += 1
+    return out
+
+
+def p4_parselines_run(chk):
+    from pyvc.interp import LoopSpec, Forall
+    from pyvc.schema import Typing
+    from pyvc import source
+    from pyvc.interp import Undecided
+    from pyvc.values import SInt, SStr, ClassRef, BoundMethod, Model, z3_of
+    TT = _token_types()
+    ITEM, COLON, NL, BR = TT["t_item"], TT["t_colon"], TT["t_newline"], TT["t_break"]
+    CX = [TT["t_complex_node"], TT["t_complex_tag"], TT["t_complex_style"]]
+    Z = z3.IntSort()
+    ex = Explorer()
+    ex.typing = Typing({"ty": ("index",), "cxsel": ("index",)}, {})
+    mod = source.module(CORE)
+    pcls = ClassRef(mod.defs["ParseLines"], mod)
+    fn = ex.function(CORE, "ParseLines.run")
+    for m in ("process_item_and_colon", "process_newline_when_start_line_exists", "process_break"):
+        ex.inline.add(f"{CORE}:ParseLines.{m}")
+
+    tokcls = PObj("TokenClass", dict(TT))
+    ex.global_overrides[(CORE, "Token")] = tokcls
+    ex.methods[("TokenClass", "__call__")] = Model("Token(...)", lambda I, *a, **kw: PObj("newtok", dict(kw)))
+
+    def is_in(t, vals):
+        return z3.Or(*[t == v for v in vals])
+
+    def g(I):
+        return I.ghost
+
+    # -- self.tokens: abstract token list (length n, type array ty)
+    def tok_len(I, tl):
+        return SInt(g(I)["n"])
+    ex.len_hooks["toklist"] = tok_len
+
+    def term(I, v, default):
+        if v is None:
+            return default
+        return I._int_term(v)
+
+    def tok_getitem(I, tl, idx):
+        G = g(I)
+        n = G["n"]
+        if isinstance(idx, tuple) and idx and idx[0] == "__slice__":
+            _, lo, hi, step = idx
+            a, b = term(I, lo, z3.IntVal(0)), term(I, hi, n)
+            b = z3.If(b > n, n, b)
+            I.oblige("slice_bounds_are_indices", z3.And(a >= 0, b >= 0))
+            G["C"].append((a, b))             # ghost: these tokens are handed to a line
+            return PObj("tokslice", {"lo": a, "hi": b})
+        k = I._int_term(idx)
+        if not I.decide(z3.And(k >= 0, k < n)):
+            I.throw("IndexError", "list index out of range")
+        return PObj("tok", {"type": SInt(z3.Select(G["ty"], k)), "start": I.fresh_int("start"), "text": I.fresh_str("text")})
+    ex.getitem_hooks["toklist"] = tok_getitem
+
+    def tok_setslice(I, tl, sl, val):
+        """the overwrite (flush): frame obligations, then the new abstract list"""
+        G = g(I)
+        _, lo, hi, step = sl
+        n, ty = G["n"], G["ty"]
+        a, b = term(I, lo, z3.IntVal(0)), term(I, hi, n)
+        L = z3.IntVal(len(val)) if isinstance(val, list) else val.fields["L"]
+        k = I.fresh("k@index", Z)
+        inside = [z3.And(x <= k, k < y) for x, y in G["C"]]
+        I.oblige("slice_is_a_valid_range", z3.And(a >= 0, a <= b, b <= n))
+        I.oblige("overwrites_exactly_the_collected_tokens", z3.And(a <= k, k < b) == (z3.Or(*inside) if inside else z3.BoolVal(False)))
+        for x in range(len(inside)):
+            for y in range(x + 1, len(inside)):
+                I.oblige("no_token_collected_twice", z3.Not(z3.And(inside[x], inside[y])))
+        d = (b - a) - L
+        sel = I.fresh("cxsel", z3.ArraySort(Z, Z))
+        j = z3.Int("j!lam")
+        cx = z3.If(z3.Select(sel, j) == 0, CX[0], z3.If(z3.Select(sel, j) == 1, CX[1], CX[2]))
+        G["ty"] = z3.Lambda([j], z3.If(j < a, z3.Select(ty, j), z3.If(j < a + L, cx, z3.Select(ty, j + d))))
+        G["n"] = n - d
+        G["C"] = []
+        G["flushes"] += 1
+    ex.setitem_hooks["toklist"] = tok_setslice
+
+    # -- lines: abstract list of collected line tokens
+    ex.truthy_hooks["lineslist"] = lambda I, l: I.decide(l.fields["L"] > 0)
+    ex.len_hooks["lineslist"] = lambda I, l: SInt(l.fields["L"])
+
+    def lines_append(I, l, tok):
+        l.fields["L"] = l.fields["L"] + 1
+    ex.methods[("lineslist", "append")] = Model("list.append on lines", lines_append)
+
+    def analyze_contract(I, self, lines):
+        # assumed contract of analyze (verified separately for its own insertions): re-groups the lines in place;
+        # a non-empty list stays non-empty and holds complex node / tag / style tokens only
+        if isinstance(lines, list):
+            raise Undecided("analyze on a concrete list")
+        L2 = I.fresh("lines_after_analyze", Z)
+        I.assume(z3.And(L2 >= 1))
+        I.oblige("analyze_is_called_on_a_non_empty_list", lines.fields["L"] >= 1)
+        lines.fields["L"] = L2
+    ex.contracts[f"{CORE}:ParseLines.analyze"] = analyze_contract
+
+    def get_line_prefix_contract(I, self, k):
+        G = g(I)
+        kk = I._int_term(k)
+        I.oblige("line_marker_is_an_item_or_colon_token", is_in(z3.Select(G["ty"], kk), [ITEM, COLON]))
+        G["C"].append((kk, kk + 1))          # ghost: the marker token is consumed as the line's prefix
+        return I.fresh_str("lineprefix")
+    ex.contracts[f"{CORE}:ParseLines.get_line_prefix"] = get_line_prefix_contract
+
+    def opt(v):
+        return None if v is None else z3_of(v)
+
+    def L_of(lines):
+        return z3.IntVal(len(lines)) if isinstance(lines, list) else lines.fields["L"]
+
+    def inv(I, v, it):
+        G = g(I)
+        n, ty = G["n"], G["ty"]
+        i, ft, sl, L = z3_of(v["i"]), opt(v["first_token"]), opt(v["start_line"]), L_of(v["lines"])
+        out = [("i_in_range", z3.And(i >= 0, i <= n)), ("lines_len", L >= 0)]
+        I.hint("index", i)
+        I.hint("index", i - 1)
+        # P: line markers stand at line starts (contract of the scanner / earlier passes, precondition of run)
+        out.append(("markers_only_at_line_starts", Forall(["index"], lambda k: z3.Implies(
+            z3.And(k > 0, k < n, is_in(z3.Select(ty, k), [ITEM, COLON])), is_in(z3.Select(ty, k - 1), [NL, BR])), "P")))
+        if ft is None:
+            out.append(("nothing_pending_without_first_token", z3.And(L == 0, z3.BoolVal(sl is None))))
+            out.append(("nothing_collected_without_first_token", z3.BoolVal(len(G["C"]) == 0)))
+        else:
+            k = I.fresh("kc@index", Z)
+            inside = [z3.And(x <= k, k < y) for x, y in G["C"]]
+            coll = z3.Or(*inside) if inside else z3.BoolVal(False)
+            hi = i if sl is None else sl
+            out.append(("first_token_in_range", z3.And(ft >= 0, ft <= hi, hi <= i)))
+            out.append(("collected_is_first_token_up_to_the_pending_line", coll == z3.And(ft <= k, k < hi)))
+            for x in range(len(inside)):
+                for y in range(x + 1, len(inside)):
+                    out.append(("collected_once", z3.Not(z3.And(inside[x], inside[y]))))
+            if sl is None:
+                out.append(("lines_exist_with_first_token", L >= 1))
+            else:
+                I.hint("index", sl)
+                out.append(("pending_line_starts_at_a_marker", z3.And(sl < i, is_in(z3.Select(ty, sl), [ITEM, COLON]))))
+                out.append(("pending_line_holds_no_line_end", Forall(["index"], lambda q: z3.Implies(
+                    z3.And(q > sl, q < i), z3.Not(is_in(z3.Select(ty, q), [NL, BR]))), "pending")))
+        return out
+
+    def havoc(I, v, it):
+        G = g(I)
+        G["n"] = I.fresh("n", Z)
+        G["ty"] = I.fresh("ty", z3.ArraySort(Z, Z))
+        I.assume(G["n"] >= 0)
+        v["lines"] = PObj("lineslist", {"L": I.fresh("L", Z)})
+        for nme in ("first_token", "start_line"):
+            v[nme] = None if I.decide(I.fresh(nme + "_is_None", z3.BoolSort())) else I.fresh_int(nme)
+        ft, sl = v["first_token"], v["start_line"]
+        # ghost summary of the collected set after any number of iterations
+        G["C"] = [] if ft is None else [(ft.z, z3_of(v["i"]) if sl is None else sl.z)]
+    ex.loopspecs[(fn.ident, 0)] = LoopSpec(invariant=inv, havoc=havoc, extra_havoc=("lines", "first_token", "start_line"))
+
+    def harness(I):
+        G = g(I)
+        G["n"] = I.fresh("n0", Z)
+        G["ty"] = I.fresh("ty0", z3.ArraySort(Z, Z))
+        G["C"] = []
+        G["flushes"] = 0
+        I.inputs["n"] = G["n"]
+        I.assume(G["n"] >= 0)
+        n, ty = G["n"], G["ty"]
+        I.assume(Forall(["index"], lambda k: z3.Implies(z3.And(k > 0, k < n, is_in(z3.Select(ty, k), [ITEM, COLON])),
+                                                         is_in(z3.Select(ty, k - 1), [NL, BR])), "precondition_markers_only_at_line_starts"))
+        me = PObj(pcls, {"tokens": PObj("toklist", {})})
+        out = ex.run_function(I, fn, [me])
+        I.oblige("no_raise", out.returned)
+        I.oblige("nothing_collected_is_left_behind", z3.BoolVal(len(G["C"]) == 0) if True else None)
+    chk.prove("core.ParseLines.run", harness, ex, targets=[fn], replay=replay)
+
+
+# ----------------------------------------------------------------------------- P5: ParseLines.analyze inserts every token it creates exactly once
+def p5_parselines_analyze(chk):
+    from pyvc import source
+    from pyvc.interp import LoopSpec, Undecided
+    from pyvc.values import SInt, SStr, SBool, ClassRef, Model, z3_of
+    TT = _token_types()
+    Z = z3.IntSort()
+    ex = Explorer()
+    mod = source.module(CORE)
+    pcls = ClassRef(mod.defs["ParseLines"], mod)
+    fn = ex.function(CORE, "ParseLines.analyze")
+    for m in ("getchar", "handle_no_prefix", "get_node_and_newitem"):
+        ex.inline.add(f"{CORE}:ParseLines.{m}")
+    ex.inline.add(f"{CORE}:isinstance")
+
+    def new_token(I, *a, **kw):
+        f = dict(kw)
+        f.setdefault("type", a[0] if a else None)
+        f["_inserted"] = False          # ghost: this token has not been put into any list yet
+        for k, dflt in (("tagname", None), ("caption", ""), ("blocknode", False), ("children", None), ("lineprefix", None)):
+            f.setdefault(k, dflt)       # class-level defaults of utoken.Token
+        return PObj("newtok", f)
+    tokcls = PObj("TokenClass", dict(TT))
+    ex.global_overrides[(CORE, "Token")] = tokcls
+    ex.methods[("TokenClass", "__call__")] = Model("Token(...)", new_token)
+    ex.models["builtins.isinstance"] = Model("isinstance", lambda I, o, c: isinstance(o, PObj) and o.clsname() in ("newtok", "linetok") if c is tokcls else NotImplemented)
+
+    def g(I):
+        return I.ghost
+
+    ex.len_hooks["alines"] = lambda I, l: SInt(g(I)["len"])
+
+    def al_getitem(I, l, idx):
+        G = g(I)
+        k = I._int_term(idx)
+        k = z3.If(k < 0, k + G["len"], k)
+        if not I.decide(z3.And(k >= 0, k < G["len"])):
+            I.throw("IndexError", "list index out of range")
+        if I.decide(k == G["len"] - 1) and G["guard"]:
+            return G["guard"]
+        # precondition of analyze: every element is a complex line token; its prefix is any string / None
+        pre = None
+        if I.decide(I.fresh("has_prefix", z3.BoolSort())):
+            # precondition (scanner contract): a line prefix is a non-empty run of list markers; analyze itself
+            # reads its first character only, so one representative per first character is complete here
+            pre = ":*#;"[I.choose(4, "prefix_char")]
+        return PObj("linetok", {"type": TT["t_complex_line"], "lineprefix": pre, "tagname": I.fresh_str("tagname"), "_inserted": True})
+    ex.getitem_hooks["alines"] = al_getitem
+
+    def al_append(I, l, tok):
+        G = g(I)
+        tok.fields["_inserted"] = True
+        G["guard"] = tok
+        G["len"] = G["len"] + 1
+    ex.methods[("alines", "append")] = Model("list.append on lines", al_append)
+
+    def al_insert(I, l, pos, tok):
+        G = g(I)
+        p = I._int_term(pos)
+        ins = tok.fields.get("_inserted", False)
+        I.oblige("inserted_token_is_not_in_a_list_yet", z3.Not(ins.z) if isinstance(ins, SBool) else z3.BoolVal(not ins))
+        I.oblige("inserted_before_the_guard", z3.And(p >= 0, p <= G["len"] - 1))
+        tok.fields["_inserted"] = True
+        G["len"] = G["len"] + 1
+        G["inserts"] += 1
+    ex.methods[("alines", "insert")] = Model("list.insert on lines", al_insert)
+
+    def al_delitem(I, l, idx):
+        G = g(I)
+        k = I._int_term(idx)
+        I.oblige("the_removed_element_is_the_guard", z3.And(z3.Or(k == -1, k == G["len"] - 1), G["len"] >= 1))
+        G["len"] = G["len"] - 1
+    ex.delitem_hooks["alines"] = al_delitem
+    ex.setattr_hooks["linetok"] = lambda I, o, n, v: o.fields.__setitem__(n, v)
+
+    def collect_items_contract(I, self, lines, startpos, prefix, node, newitem, endtag, description_data):
+        """contract of collect_items (its body is the subject of the bounded round trip): moves >= 1 lines at
+        startpos into node (or splits one at an end tag), never past the guard; the definition it returns is the
+        one passed in, or a token it created and did not insert anywhere (then the caller's loop is left)"""
+        G = g(I)
+        removed = I.fresh("removed", Z)
+        I.assume(z3.And(removed >= 0, removed <= G["len"] - 1 - I._int_term(startpos)))
+        G["len"] = G["len"] - removed
+        if I.decide(I.fresh("inline_definition_split_off", z3.BoolSort())):
+            return (new_token(I, TT["t_complex_style"], caption=":"), startpos, True)
+        return (description_data, startpos, I.fresh_bool("broke_loop"))
+    ex.contracts[f"{CORE}:ParseLines.collect_items"] = collect_items_contract
+
+    def inv(I, v, it):
+        G = g(I)
+        sp = z3_of(v["startpos"])
+        return [("startpos_before_the_guard", z3.And(sp >= 0, sp <= G["len"] - 1)), ("guard_present", G["len"] >= 1)]
+
+    def havoc(I, v, it):
+        G = g(I)
+        G["len"] = I.fresh("len", Z)
+        for nme in ("description_data", "node"):
+            if nme in I.ghost.get("loop_old_vars", {}) or nme in v:
+                # after an arbitrary number of iterations: None, or a token of an earlier iteration (which was inserted there)
+                v[nme] = None if I.decide(I.fresh(nme + "_is_None", z3.BoolSort())) else PObj("newtok", {"type": TT["t_complex_style"], "_inserted": True, "children": []})
+    ex.loopspecs[(fn.ident, 0)] = LoopSpec(invariant=inv, havoc=havoc)
+    def inv_inner(I, v, it):
+        G = g(I)
+        if "dd_entry" not in G:
+            G["dd_entry"] = v.get("description_data")
+        return inv(I, v, it) + [("definition_unchanged_while_the_group_continues", v.get("description_data") is G["dd_entry"])]
+    ex.loopspecs[(fn.ident, 1)] = LoopSpec(invariant=inv_inner, havoc=lambda I, v, it: g(I).__setitem__("len", I.fresh("len_in", Z)),
+                                           keep=("description_data",))
+
+    def harness(I):
+        G = g(I)
+        G["len"] = I.fresh("len0", Z)
+        G["guard"] = None
+        G["inserts"] = 0
+        I.inputs["len"] = G["len"]
+        I.assume(G["len"] >= 0)
+        me = PObj(pcls, {})
+        out = ex.run_function(I, fn, [me, PObj("alines", {})])
+        I.oblige("no_raise" if out.returned else f"no_raise[{out.exc!r}]", out.returned)
+    chk.prove("core.ParseLines.analyze", harness, ex, targets=[fn], replay=replay)
